@@ -111,6 +111,48 @@ def run(ck):
               "the arm leaves the read loop" if not bad and not rd else "after the disconnection the loop continues (%s reachable at %s)" % (
                   "onInput" if bad else "recv", (bad or rd)[0].loc))
 
+    # ---------------- R8: descriptor ownership of queued file writes ----------------
+    ck.rule("C08-R8", "I ownership (type-level) + D who-may-call",
+            "the descriptor of a queued file write is owned by its BufferHolder: the file constructor creates a shared owner whose deleter "
+            "closes it, detach() hands the same owner to the holder it returns, and nothing else in the transport closes a buffer's "
+            "descriptor by hand — so every way an entry leaves the queue (sent, failed, peer gone, removePeer, dropped) closes it once", 4)
+    bh = prog.cls(T + "BufferHolder")
+    owner = [x for x in bh["fields"] if "shared_ptr" in x["type"]]
+    dtor_idiom = [f2 for f2 in prog.funcs.values() if f2.d.get("dtor") and f2.cls in (T + "BufferHolder", T + "WriteEntry", "Pistache::FileBuffer")
+                  and any(libc(c, "close") for c in f2.events("call"))]
+    if not owner and dtor_idiom:
+        # another ownership idiom (a destructor closes the descriptor): equivalent for this rule, but copies of the holder would then
+        # close twice — that is a different analysis; do not guess
+        raise AnalysisBroken("C08-R8: descriptor ownership is implemented by a destructor (%s), an idiom this rule does not model" % dtor_idiom[0].name)
+    ck.ob("C08-R8", "BufferHolder/has-owner-field", bool(owner), "%s:%s" % (bh["file"], owner[0]["line"] if owner else bh["line"]), "",
+          "field %s %s" % (owner[0]["type"], owner[0]["name"]) if owner else
+          "BufferHolder holds only a raw descriptor: whichever path drops a queued file write without sending it completely leaks the file", nontrivial=False)
+    if owner:
+        oq = owner[0]["q"]
+        mk = [f2 for f2 in prog.funcs.values() if f2.cls == T + "BufferHolder" and any(e["k"] == "lambda" for e in f2.events()) and
+              any((c.get("callee") or "") == "close" for lf in prog.lambdas_in(f2) for c in lf.events("call"))]
+        ck.ob("C08-R8", "BufferHolder/owner-deleter-closes", bool(mk), mk[0].loc if mk else "%s:%s" % (bh["file"], bh["line"]), mk[0] if mk else "",
+              "the owner's deleter calls close()" if mk else "no deleter closing the descriptor found")
+        ctors = [f2 for f2 in prog.funcs.values() if f2.cls == T + "BufferHolder" and f2.d.get("ctor") and f2.params and "FileBuffer" in f2.params[0]["type"]]
+        ck.require(ctors, "BufferHolder(const FileBuffer&) not found")
+        inits = [e for e in ctors[0].events("init") if e.get("f") == oq]
+        okc = bool(inits) and mk and any((c.get("callee") or "") == mk[0].name for c in ctors[0].events("call"))
+        ck.ob("C08-R8", "BufferHolder(FileBuffer)/creates-owner", bool(okc), ctors[0].loc, ctors[0], "the file constructor initialises the owner from buffer.fd()")
+        dt = lib.single(prog, T + "BufferHolder::detach")
+        cons = [e for e in dt.events("construct") if (e.get("cls") or "") == T + "BufferHolder" and not e.get("copymove")
+                and any((a.get("f") or "").endswith("BufferHolder::_fd") for a in e.get("args", []))]
+        okd = bool(cons) and all(any((a.get("f") or "") == oq for a in e.get("args", [])) for e in cons)
+        ck.ob("C08-R8", "BufferHolder::detach/passes-owner", okd, cons[0].loc if cons else dt.loc, dt, "the detached file holder shares the owner")
+    manual = []
+    for f2 in prog.library_funcs():
+        if not (f2.base.startswith(T) or (f2.is_lambda and (f2.d.get("parentName") or "").startswith(T))):
+            continue
+        for e in f2.calls(lambda e: libc(e, "close")):
+            if "c:" + T + "BufferHolder::fd" in (e.get("refs") or []):
+                manual.append(e)
+    ck.ob("C08-R8", "transport/no-manual-close-of-buffer-fd", not manual, manual[0].loc if manual else "%s:%s" % (bh["file"], bh["line"]), manual[0].func if manual else "",
+          "no close(buffer.fd()) by hand" if not manual else "close(buffer.fd()) at %s closes a descriptor its holder also owns (double close) or is the only path that closes it (leak elsewhere)" % manual[0].loc)
+
     # ---------------- R7: edge-triggered drain ----------------
     ck.rule("C08-R7", "C must-pass-through (edge-triggered drain)",
             "peer sockets are registered edge-triggered, so Transport::handleIncoming may stop reading only after recv() reported "
